@@ -151,20 +151,20 @@ class Report:
                 "witness": ob.witness,
                 "replayed_on_real_code": ob.replayed,
                 "detail": ob.detail,
-                "rerun": f"./check {self.prop} --replay {fn.relative_to(VERIF)}",
+                "rerun": f"./check {self.prop} --replay {(fn.relative_to(VERIF) if OUT == VERIF else fn)}",
             }), indent=1))
             tail = "" if ob.replayed else " no-failing-input-found"
-            lines.append((f"VIOLATION property={self.prop} replay={fn.relative_to(VERIF)}{tail}", ob.id))
+            lines.append((f"VIOLATION property={self.prop} replay={(fn.relative_to(VERIF) if OUT == VERIF else fn)}{tail}", ob.id))
         printed = set()
         for kf, ob in known_hit:
             key = kf["id"]
             if key in printed:
                 continue
             printed.add(key)
-            print(f"KNOWN-FINDING: property={self.prop} {kf['what']} [obligation {ob.id}]")
+            _out(f"KNOWN-FINDING: property={self.prop} {kf['what']} [obligation {ob.id}]")
         for l, oid in lines:
-            print(l)
-            print(f"  failed obligation={oid}")
+            _out(l)
+            _out(f"  failed obligation={oid}")
         undecided = [o for o in self.obs if o.verdict == UNDECIDED]
         n_total = len(self.obs)
         n_ok = sum(1 for o in self.obs if o.verdict in (DISCHARGED, HELD))
@@ -174,18 +174,18 @@ class Report:
         elif self.crashed:
             code = 3
         elif n_total < min_obligations:
-            print(f"CHECKER-ERROR: only {n_total} obligations generated, expected >= {min_obligations} (vacuity guard)")
+            _out(f"CHECKER-ERROR: only {n_total} obligations generated, expected >= {min_obligations} (vacuity guard)")
             code = 3
         elif undecided:
             code = 2
         for u in undecided[:20]:
-            print(f"UNDECIDED: {u.id}: {u.detail.get('reason', '')}"[:400])
+            _out(f"UNDECIDED: {u.id}: {u.detail.get('reason', '')}"[:400])
         for c in self.crashed:
-            print("CHECKER-ERROR:", c[:2000])
+            _out("CHECKER-ERROR:", c[:2000])
         self._write_evidence(n_viol, checker_cmd, known_hit)
         n_proved = sum(1 for o in self.obs if o.verdict == DISCHARGED)
         n_held = sum(1 for o in self.obs if o.verdict == HELD)
-        print(f"{self.prop} [{self.tier}] obligations={n_total} discharged={n_proved} bounded-held={n_held} "
+        _out(f"{self.prop} [{self.tier}] obligations={n_total} discharged={n_proved} bounded-held={n_held} "
               f"known-findings={len(known_hit)} violated={n_viol} undecided={len(undecided)} "
               f"wall={time.time() - self.t0:.1f}s exit={code}")
         return code
@@ -249,6 +249,13 @@ def _safe(s: str) -> str:
     return "".join(c if c.isalnum() or c in "._-" else "_" for c in s)[:120]
 
 
+def _out(*a):
+    """the interface lines go to the process's real stdout: code under check may rebind sys.stdout (mod_daemon does so at import)"""
+    import sys
+
+    print(*a, file=sys.__stdout__, flush=True)
+
+
 def run_check(prop: str, fn, tier: str, seed: int):
     """Wrap a property check so that a crash maps to exit 3, never to a violation."""
     try:
@@ -256,6 +263,6 @@ def run_check(prop: str, fn, tier: str, seed: int):
     except SystemExit:
         raise
     except BaseException:
-        print("CHECKER-ERROR: crash in check", prop)
+        _out("CHECKER-ERROR: crash in check", prop)
         traceback.print_exc()
         return 3
